@@ -85,6 +85,12 @@ def family_files(chk):
         out.append(('write: ' + c08cases[idx][0], c08cases[idx][1]))
     for comb in list(c07.KILLS)[:4]:
         out.append(('selfdestruct: ' + comb, lambda b, k=comb: c07.selfdestruct_file(b, 'Function', 'public', None, k, 'log(x)', 'kill_in_if')))
+    # adjacent string literals (the compiler concatenates them) just below the 32-byte threshold, version below 0.8.4
+    from ..engine import Adt as _Adt, VecV as _VecV
+    out.append(('adjacent string literals', lambda b: fam.build_file(b, 'if_body', b.call(b.var('require'), [
+        b.var('c'), _Adt('Expression', 'StringLiteral', (_VecV([b.strlit('fourteen bytes'), b.strlit('and 14 more...')]),))]), pragma='0.8.0')))
+    out.append(('adjacent string literals, long first part', lambda b: fam.build_file(b, 'statement', b.call(b.var('require'), [
+        b.var('c'), _Adt('Expression', 'StringLiteral', (_VecV([b.strlit('a first part that is longer than 32 bytes'), b.strlit('x')]),))]), pragma='0.7.6')))
     # code-like text inside string literals
     out.append(('code-like string literals', lambda b: fam.build_file(b, 'statement', b.call(b.var('require'), [
         b.var('c'), b.string('a + b; x++; keccak256(y) >= address(0).balance; selfdestruct(msg.sender)')]))))
@@ -220,8 +226,9 @@ def body(chk):
     files = family_files(chk)
     idx = list(range(len(files)))
     if chk.quick:
+        core = [i for i, (l, _) in enumerate(files) if 'string literal' in l or l == 'probe file']
         chk.rng.shuffle(idx)
-        idx = sorted(idx[:70])
+        idx = sorted(set(idx[:70]) | set(core))
     chk.bounds = {'files': '%d of %d family files (C05-C09, C15, C19 families) x 30 detectors' % (len(idx), len(files)),
                   'symbolic': 'all byte offsets free; string literal contents unobservable except their length',
                   're-layouts': 'one seeded token-preserving re-layout per file (gaps: spaces, tabs, LF, CRLF, blank lines, line / block / doc comments with code-like and multi-byte text)',
